@@ -340,7 +340,6 @@ deriving Repr
 inductive Outcome
   | badRequest                          -- net/http refuses the request line or a header line (400): no handler runs
   | notProxied                          -- IP-literal Host: handed to the gateway's own control plane
-  | plainError (code : Nat)             -- `WithRequestInfo` failed: text/plain 500 (known finding of C04)
   | terminated (a : Forward.Answer)     -- answered by the gateway with a Status
   | proxyError                          -- forwarding began, the transport refused the generated header fields: 502, nothing sent
   | forwarded (f : Forwarded)
@@ -365,7 +364,6 @@ def arrive (env : Env) (s : State) (r : Request) : State × Outcome :=
     | d =>
       match Forward.serve (scenario env s r) with
       | .notProxied => (s, .notProxied)
-      | .plainError c => (s, .plainError c)
       | .terminated a =>
         match d with
         | .done x =>
